@@ -130,8 +130,9 @@ func (e *Exec) rnd(r string, underflow bool) string {
 		b = "(+ " + b + " (ite (and (not (= " + rn + " 0.0)) (< (- " + relMinNormal + ") " + rn + ") (< " + rn + " " + relMinNormal + ")) " + relTiny + " 0.0))"
 	}
 	e.sol.Send(fmt.Sprintf("(assert (and (<= (- %s) %s) (<= %s %s)))", b, a, a, b))
-	// rounding never changes the sign
-	e.sol.Send(fmt.Sprintf("(assert (and (=> (>= %s 0.0) (>= (+ %s %s) 0.0)) (=> (<= %s 0.0) (<= (+ %s %s) 0.0))))", rn, rn, a, rn, rn, a))
+	// rounding is monotone: it never crosses a representable number (0 and the float constants the
+	// library compares against)
+	e.anchor(rn, "(+ "+rn+" "+a+")")
 	return "(+ " + rn + " " + a + ")"
 }
 
@@ -154,12 +155,23 @@ func (e *Exec) fBinR(op string, a, b Float) Float {
 	if e.opaque {
 		return e.opaqueOp(map[string]string{"+": "add", "-": "sub", "*": "mul", "/": "div"}[op], e.fT(a), e.fT(b))
 	}
+	if r, ok := e.dyExact(op, a, b); ok {
+		return r
+	}
 	x, y := e.fT(a), e.fT(b)
 	al, ah, aok := ivOf(a)
 	bl, bh, bok := ivOf(b)
 	have := aok && bok
 	switch op {
 	case "+", "-":
+		// integer-valued operands whose exact sum stays below 2^53 in magnitude: no rounding
+		if ia, ib := intROf(a), intROf(b); ia != "" && ib != "" {
+			k := "(" + op + " " + ia + " " + ib + ")"
+			in := symBool("(and (<= (- 9007199254740992) " + k + ") (<= " + k + " 9007199254740992))")
+			if e.provable(in) {
+				return Float{Sym: "(to_real " + k + ")", IntR: k}
+			}
+		}
 		t := "(" + op + " " + x + " " + y + ")"
 		if have {
 			lo, hi := al+bl, ah+bh
@@ -172,6 +184,14 @@ func (e *Exec) fBinR(op string, a, b Float) Float {
 		}
 		return e.nmR(Float{Sym: e.rnd(t, false)})
 	case "*":
+		// integer-valued operands whose exact product stays below 2^53 in magnitude: no rounding
+		if ia, ib := intROf(a), intROf(b); ia != "" && ib != "" && (a.IsC || b.IsC) {
+			k := "(* " + ia + " " + ib + ")"
+			in := symBool("(and (<= (- 9007199254740992) " + k + ") (<= " + k + " 9007199254740992))")
+			if e.provable(in) {
+				return Float{Sym: "(to_real " + k + ")", IntR: k}
+			}
+		}
 		t := "(* " + x + " " + y + ")"
 		lo, hi := 0.0, 0.0
 		if have {
@@ -249,7 +269,7 @@ func (e *Exec) rndUnderflowOnly(r string) string {
 	}
 	bb := "(ite (and (not (= " + rn + " 0.0)) (< (- " + relMinNormal + ") " + rn + ") (< " + rn + " " + relMinNormal + ")) " + relTiny + " 0.0)"
 	e.sol.Send(fmt.Sprintf("(assert (and (<= (- %s) %s) (<= %s %s)))", bb, n, n, bb))
-	e.sol.Send(fmt.Sprintf("(assert (and (=> (>= %s 0.0) (>= (+ %s %s) 0.0)) (=> (<= %s 0.0) (<= (+ %s %s) 0.0))))", rn, rn, n, rn, rn, n))
+	e.anchor(rn, "(+ "+rn+" "+n+")")
 	return "(+ " + rn + " " + n + ")"
 }
 
@@ -303,6 +323,9 @@ func (e *Exec) fNegX(a Float) Float {
 		return fNeg(a)
 	}
 	r := Float{Sym: "(- " + a.Sym + ")"}
+	if a.IntR != "" {
+		r.IntR, r.Scale = "(- "+a.IntR+")", a.Scale
+	}
 	if a.HasIv {
 		r.HasIv, r.Lo, r.Hi = true, -a.Hi, -a.Lo
 	}
@@ -324,7 +347,7 @@ func (e *Exec) fUnX(name string, a Float) Float {
 		}
 		return r
 	case "floor":
-		if a.IntR != "" {
+		if a.IntR != "" && a.Scale >= 0 {
 			return a
 		}
 		k := e.fresh("rk")
@@ -332,7 +355,7 @@ func (e *Exec) fUnX(name string, a Float) Float {
 		e.sol.Send(fmt.Sprintf("(assert (and (<= (to_real %s) %s) (< %s (+ (to_real %s) 1.0))))", k, a.Sym, a.Sym, k))
 		return Float{Sym: "(to_real " + k + ")", IntR: k}
 	case "ceil":
-		if a.IntR != "" {
+		if a.IntR != "" && a.Scale >= 0 {
 			return a
 		}
 		k := e.fresh("rk")
@@ -354,16 +377,23 @@ func (e *Exec) fIteX(c Bool, a, b Float) Float {
 		}
 		return b
 	}
-	ia, ib := intROf(a), intROf(b)
-	if ia != "" && ib != "" {
-		k := "(ite " + c.Sym + " " + ia + " " + ib + ")"
-		if len(k) > nameThreshold {
-			n := e.fresh("rk")
-			e.declare(n, "Int")
-			e.sol.Send("(assert (= " + n + " " + k + "))")
-			k = n
+	if ka, sa, oka := dyOf(a); oka {
+		if kb, sb, okb := dyOf(b); okb {
+			sc := sa
+			if sb < sc {
+				sc = sb
+			}
+			if sa-sc <= 200 && sb-sc <= 200 {
+				k := "(ite " + c.Sym + " " + scaleInt(ka, sa-sc) + " " + scaleInt(kb, sb-sc) + ")"
+				if len(k) > nameThreshold {
+					n := e.fresh("rk")
+					e.declare(n, "Int")
+					e.sol.Send("(assert (= " + n + " " + k + "))")
+					k = n
+				}
+				return dyFloat(k, sc)
+			}
 		}
-		return Float{Sym: "(to_real " + k + ")", IntR: k}
 	}
 	r := e.nmR(Float{Sym: "(ite " + c.Sym + " " + e.fT(a) + " " + e.fT(b) + ")"})
 	al, ah, aok := ivOf(a)
@@ -376,6 +406,9 @@ func (e *Exec) fIteX(c Bool, a, b Float) Float {
 
 // intROf: an SMT Int term equal to the float's value, when it is known to be an integer
 func intROf(f Float) string {
+	if !f.IsC && f.Scale != 0 {
+		return ""
+	}
 	if f.IsC {
 		if f.C == math.Trunc(f.C) && math.Abs(f.C) < 1<<62 {
 			v := int64(f.C)
@@ -411,7 +444,22 @@ func (e *Exec) iToFX(a Int) Float {
 		r = "(to_real (bv2int " + a.T() + "))"
 	}
 	cp := a
-	// exact below 2^53 in magnitude, otherwise rounded: keep the rounding term (sound either way)
+	// exact below 2^53 in magnitude (checked), otherwise rounded
+	lim := mkInt(a.W, a.Signed, 1<<53)
+	small := iCmp("<=", a, lim)
+	if a.Signed {
+		small = bAnd(small, iCmp(">=", a, iNeg(lim)))
+	}
+	if e.provable(small) {
+		ri := a.RI
+		if ri == "" {
+			n := e.fresh("rk")
+			e.declare(n, "Int")
+			e.sol.Send("(assert (= (to_real " + n + ") " + r + "))")
+			ri = n
+		}
+		return Float{Sym: "(to_real " + ri + ")", IntR: ri, FromInt: &cp}
+	}
 	return e.nmR(Float{Sym: e.rnd(r, false), FromInt: &cp})
 }
 
@@ -431,7 +479,7 @@ func (e *Exec) fToIX(a Float, w int, signed bool) Int {
 		return e.nmI(Int{W: 64, Signed: true, Sym: "(op_f2i " + a.Sym + ")"})
 	}
 	tr := "(ite (>= " + a.Sym + " 0.0) (to_int " + a.Sym + ") (- (to_int (- " + a.Sym + "))))"
-	if a.IntR != "" {
+	if a.IntR != "" && a.Scale == 0 {
 		tr = a.IntR
 	}
 	n := e.fresh("ri")
@@ -542,4 +590,114 @@ func (e *Exec) realPrim(name string, args []Value) (Value, bool) {
 		return symBool("(<= " + a.T() + " " + b.T() + ")"), true
 	}
 	return nil, false
+}
+
+// anchors: exactly representable doubles; r >= c implies fl(r) >= c and r <= c implies fl(r) <= c.
+var relAnchors = []float64{0, 180, -180}
+
+func (e *Exec) anchor(r, fl string) {
+	var parts []string
+	for _, c := range relAnchors {
+		l := realLit(c)
+		parts = append(parts, fmt.Sprintf("(=> (>= %s %s) (>= %s %s)) (=> (<= %s %s) (<= %s %s))", r, l, fl, l, r, l, fl, l))
+	}
+	e.sol.Send("(assert (and " + strings.Join(parts, " ") + "))")
+}
+
+// dyOf: the value as k * 2^s with k an SMT Int term (dyadic provenance): constants always, symbolic
+// values when the executor has tracked it.
+func dyOf(f Float) (k string, s int, ok bool) {
+	if f.IsC {
+		if f.C != f.C || math.IsInf(f.C, 0) {
+			return "", 0, false
+		}
+		if f.C == 0 {
+			return "0", 0, true
+		}
+		fr, ex := math.Frexp(f.C) // f.C = fr * 2^ex, 0.5 <= |fr| < 1
+		m := int64(fr * (1 << 53))
+		ex -= 53
+		for m%2 == 0 {
+			m /= 2
+			ex++
+		}
+		if m < 0 {
+			return fmt.Sprintf("(- %d)", -m), ex, true
+		}
+		return fmt.Sprint(m), ex, true
+	}
+	if f.IntR != "" {
+		return f.IntR, f.Scale, true
+	}
+	return "", 0, false
+}
+
+func dyFloat(k string, s int) Float {
+	sym := "(to_real " + k + ")"
+	if s > 0 {
+		sym = "(* " + sym + " " + new(big.Int).Lsh(big.NewInt(1), uint(s)).String() + ".0)"
+	} else if s < 0 {
+		sym = "(/ " + sym + " " + new(big.Int).Lsh(big.NewInt(1), uint(-s)).String() + ".0)"
+	}
+	return Float{Sym: sym, IntR: k, Scale: s}
+}
+
+func scaleInt(k string, d int) string {
+	if d == 0 {
+		return k
+	}
+	return "(* " + k + " " + new(big.Int).Lsh(big.NewInt(1), uint(d)).String() + ")"
+}
+
+// dyExact tries to compute a op b exactly on dyadic provenance: the result is exact in binary64
+// when its integer mantissa k satisfies |k| <= 2^53 and its scale is inside the exponent range.
+func (e *Exec) dyExact(op string, a, b Float) (Float, bool) {
+	ka, sa, oka := dyOf(a)
+	kb, sb, okb := dyOf(b)
+	if !oka || !okb {
+		return Float{}, false
+	}
+	var k string
+	var s int
+	switch op {
+	case "+", "-":
+		s = sa
+		if sb < s {
+			s = sb
+		}
+		if sa-s > 200 || sb-s > 200 {
+			return Float{}, false
+		}
+		k = "(" + op + " " + scaleInt(ka, sa-s) + " " + scaleInt(kb, sb-s) + ")"
+	case "*":
+		if !a.IsC && !b.IsC {
+			return Float{}, false
+		}
+		k, s = "(* "+ka+" "+kb+")", sa+sb
+	case "/":
+		if !b.IsC || !isPow2(math.Abs(b.C)) {
+			return Float{}, false
+		}
+		// kb is +-1 for a power of two
+		k, s = ka, sa-sb
+		if b.C < 0 {
+			k = "(- " + ka + ")"
+		}
+	default:
+		return Float{}, false
+	}
+	if s < -1000 || s > 900 {
+		return Float{}, false
+	}
+	if len(k) > nameThreshold {
+		n := e.fresh("rk")
+		e.declare(n, "Int")
+		e.sol.Send("(assert (= " + n + " " + k + "))")
+		k = n
+	}
+	in := symBool("(and (<= (- 9007199254740992) " + k + ") (<= " + k + " 9007199254740992))")
+	if !e.provable(in) {
+		return Float{}, false
+	}
+	return dyFloat(k, s), true
 }
